@@ -24,6 +24,9 @@ type SpecEnv struct {
 	resNames []string
 	pkg     *types.Package
 	depth   int
+	cur     *State // the current path state when st has been switched to a snapshot/old/head state
+	head    *State // state at the head of the enclosing loop iteration (for head(e))
+	inUse   bool   // evaluating a `use` clause: axiom schemata may be expanded
 }
 
 func (e *SpecEnv) with(name string, t Term) *SpecEnv {
@@ -78,12 +81,10 @@ func (e *SpecEnv) resolveType(te ast.Expr) types.Type {
 		return types.NewPointer(e.resolveType(t.X))
 	case *ast.SelectorExpr:
 		if id, ok := t.X.(*ast.Ident); ok && e.pkg != nil {
-			for _, imp := range e.pkg.Imports() {
-				if imp.Name() == id.Name {
-					if o := imp.Scope().Lookup(t.Sel.Name); o != nil {
-						if tn, ok := o.(*types.TypeName); ok {
-							return tn.Type()
-						}
+			if imp := e.importNamed(id.Name); imp != nil {
+				if o := imp.Scope().Lookup(t.Sel.Name); o != nil {
+					if tn, ok := o.(*types.TypeName); ok {
+						return tn.Type()
 					}
 				}
 			}
@@ -97,6 +98,36 @@ func (e *SpecEnv) resolveType(te ast.Expr) types.Type {
 		}
 	}
 	e.stale("unsupported type expression %s", exprString(te))
+	return nil
+}
+
+// importNamed finds an imported package by the name it is referred to in the source (package name or import alias).
+func (e *SpecEnv) importNamed(name string) *types.Package {
+	if e.pkg == nil {
+		return nil
+	}
+	for _, imp := range e.pkg.Imports() {
+		if imp.Name() == name {
+			return imp
+		}
+	}
+	for _, p := range e.x.prog.AllPkgs {
+		if p.Types != e.pkg {
+			continue
+		}
+		for _, f := range p.Syntax {
+			for _, is := range f.Imports {
+				if is.Name != nil && is.Name.Name == name {
+					path := strings.Trim(is.Path.Value, "\"")
+					for _, imp := range e.pkg.Imports() {
+						if imp.Path() == path {
+							return imp
+						}
+					}
+				}
+			}
+		}
+	}
 	return nil
 }
 
@@ -128,6 +159,14 @@ func (e *SpecEnv) lookupIdent(name string) (Term, bool) {
 		if rn == name && i < len(e.results) {
 			return e.results[i], true
 		}
+	}
+	if te, ok := e.x.prog.Contracts.GhostVars[name]; ok {
+		t := e.resolveType(te)
+		key := "G!ghost." + name
+		sort := e.x.ctx.sortOf(t)
+		e.x.memSort[key] = sort
+		m := e.x.memTerm(e.st, key, sort)
+		return Term{S: m.S, Sort: sort, T: t}, true
 	}
 	if v, ok := e.x.synth[name]; ok {
 		if t, ok := e.st.vars[v]; ok {
@@ -162,7 +201,9 @@ func (e *SpecEnv) objTerm(obj types.Object) (Term, bool) {
 			return t, true
 		}
 		if o.Parent() != nil && o.Pkg() != nil && o.Parent() == o.Pkg().Scope() {
-			return e.x.loadGlobal(e.st, o), true
+			g := e.x.loadGlobal(e.st, o)
+			e.x.ctx.declOnce("ti:"+g.S, "(assert "+e.x.typeInv(e.x.allocStateFor(e.st, g.S), g)+")")
+			return g, true
 		}
 		return Term{}, false
 	case *types.Const:
@@ -230,15 +271,13 @@ func (e *SpecEnv) expr(ex ast.Expr) Term {
 		// package-qualified name?
 		if id, ok := n.X.(*ast.Ident); ok {
 			if _, isVal := e.lookupIdent(id.Name); !isVal && e.pkg != nil {
-				for _, imp := range e.pkg.Imports() {
-					if imp.Name() == id.Name {
-						if obj := imp.Scope().Lookup(n.Sel.Name); obj != nil {
-							if t, ok := e.objTerm(obj); ok {
-								return t
-							}
+				if imp := e.importNamed(id.Name); imp != nil {
+					if obj := imp.Scope().Lookup(n.Sel.Name); obj != nil {
+						if t, ok := e.objTerm(obj); ok {
+							return t
 						}
-						e.stale("%s.%s does not resolve", id.Name, n.Sel.Name)
 					}
+					e.stale("%s.%s does not resolve", id.Name, n.Sel.Name)
 				}
 			}
 		}
@@ -321,8 +360,9 @@ func (e *SpecEnv) selectField(a Term, name string, ex ast.Expr) Term {
 		v := x.loadField(e.st, a, st, f)
 		if !strings.Contains(v.S, "?") {
 			// name the loaded value and state that it is well-typed (a global fact about well-typed heaps)
+			heap := x.memTerm(e.st, fieldKey(st, f.Name()), "(Array Int "+x.ctx.sortOf(f.Type())+")")
 			v = x.define(e.st, f.Name(), v)
-			x.ctx.declOnce("ti:"+v.S, "(assert "+x.typeInv(nil, v)+")")
+			x.ctx.declOnce("ti:"+v.S, "(assert "+x.typeInv(x.allocStateForRef(e.st, heap.S, a), v)+")")
 		}
 		return v
 	}
@@ -504,7 +544,45 @@ func (e *SpecEnv) call(n *ast.CallExpr) Term {
 		}
 		return Term{S: fmt.Sprintf("(%s ((%s Int)) %s)", q, c, f), Sort: "Bool", T: boolT}
 	}
+	multi := func(k int) Term {
+		// forallK(v1..vk, P [, trig...])
+		argN(k + 1)
+		inner := e
+		var binds []string
+		for i := 0; i < k; i++ {
+			id, ok := n.Args[i].(*ast.Ident)
+			if !ok {
+				e.stale("quantifier variable must be an identifier")
+			}
+			c := fmt.Sprintf("%s?%d", id.Name, e.depth)
+			binds = append(binds, fmt.Sprintf("(%s Int)", c))
+			inner = inner.with(id.Name, Term{S: c, Sort: "Int", T: intT})
+		}
+		inner.depth = e.depth + 1
+		b := inner.boolean(n.Args[k])
+		var pats []string
+		for _, r := range n.Args[k+1:] {
+			call, ok := r.(*ast.CallExpr)
+			if !ok || exprString(call.Fun) != "trig" {
+				e.stale("extra quantifier argument must be trig(...)")
+			}
+			var ts []string
+			for _, a := range call.Args {
+				ts = append(ts, inner.expr(a).S)
+			}
+			pats = append(pats, ":pattern ("+strings.Join(ts, " ")+")")
+		}
+		f := b
+		if len(pats) > 0 {
+			f = "(! " + f + " " + strings.Join(pats, " ") + ")"
+		}
+		return Term{S: fmt.Sprintf("(forall (%s) %s)", strings.Join(binds, " "), f), Sort: "Bool", T: boolT}
+	}
 	switch fname {
+	case "forall2":
+		return multi(2)
+	case "forall3":
+		return multi(3)
 	case "all":
 		return quant("forall", true)
 	case "some":
@@ -537,6 +615,49 @@ func (e *SpecEnv) call(n *ast.CallExpr) Term {
 		o := *e
 		o.st = e.old
 		return o.expr(n.Args[0])
+	case "at":
+		// at(NAME, e): e evaluated in the named snapshot of this path. On a path that never passed the snapshot
+		// point the value is unconstrained (a clause that needs it must guard it by a condition false on such paths).
+		argN(2)
+		id, ok := n.Args[0].(*ast.Ident)
+		if !ok {
+			e.stale("at(NAME, e): NAME must be an identifier")
+		}
+		cur := e.st
+		if e.cur != nil {
+			cur = e.cur
+		}
+		if cur.snaps == nil || cur.snaps[id.Name] == nil {
+			t := e.expr(n.Args[1])
+			c := x.ctx.fresh("nosnap_"+id.Name, t.Sort)
+			return Term{S: c, Sort: t.Sort, T: t.T}
+		}
+		o := *e
+		o.cur = cur
+		o.st = cur.snaps[id.Name]
+		return o.expr(n.Args[1])
+	case "head":
+		argN(1)
+		if e.head == nil {
+			e.stale("head() not available here")
+		}
+		o := *e
+		o.st = e.head
+		return o.expr(n.Args[0])
+	case "store":
+		// store(a, i, v): sequence a with element i replaced
+		argN(3)
+		a, i, v := e.expr(n.Args[0]), e.expr(n.Args[1]), e.expr(n.Args[2])
+		if arr, ok := a.T.(*types.Array); ok && arr.Len() == 0 {
+			if v.S == "nil!" {
+				v = x.zeroOf(arr.Elem())
+			}
+			if v.Sort != x.ctx.sortOf(arr.Elem()) {
+				v = x.convert(e.st, v, arr.Elem())
+			}
+			return Term{S: app("store", a.S, i.S, v.S), Sort: a.Sort, T: a.T}
+		}
+		e.stale("store() on a non-sequence")
 	case "len":
 		argN(1)
 		a := e.expr(n.Args[0])
@@ -661,6 +782,10 @@ func (e *SpecEnv) applySpec(sd *SpecDef, args []Term) Term {
 		e.stale("spec %s: %d arguments, want %d", sd.Name, len(args), len(sd.Params))
 	}
 	retT := e.resolveType(sd.Ret)
+	if sd.Schema && !e.inUse {
+		e.stale("axiom schema %s may only be instantiated by a use clause", sd.Name)
+	}
+	sd.Uses++
 	if g, ok := x.ghosts[sd.Name]; ok && g.def == sd {
 		var as []string
 		for _, a := range args {
